@@ -518,6 +518,10 @@ def _check_calendar(prog: Program, res: Result):
 
 
 VARIANTS = [
+    Variant("month loop runs to the length of the monthly arrays instead of the requested horizon (seeded C08_f)", "break",
+            [(GL, "        peak_last_avg_hour = 0.0\n        for i in range(self.start_month, (self.end_month + 1)):", "        last_month = len(self.monthly_cl) - 1\n        peak_last_avg_hour = 0.0\n        for i in range(self.start_month, (last_month + 1)):")], "R08.0"),
+    Variant("month loop bound held in a local", "benign",
+            [(GL, "        peak_last_avg_hour = 0.0\n        for i in range(self.start_month, (self.end_month + 1)):", "        last_month = self.end_month\n        peak_last_avg_hour = 0.0\n        for i in range(self.start_month, 1 + last_month):")]),
     Variant("last breakpoint overwritten after the month loop (seeded C08_c)", "break",
             [(GL, "        n = self.hour.size\n", "        self.hour[-1] = self.end_month / 12.0 * 8760.0\n        n = self.hour.size\n")], "R08.0"),
     Variant("same-day peaks sent through the heating-first branch (seeded C08_d)", "break",
